@@ -76,7 +76,7 @@ theorem getN_cached (n : Nat) (rules : Rules) (r : Rec) (k : Field) (v : Val)
 
 /-- an absent or invalid rule field is recomputed by its rule on access, cached, and marked valid -/
 theorem getN_recompute (n : Nat) (rules : Rules) (r : Rec) (k : Field) (e : Expr)
-    (hr : lk rules k = some e) (hi : lk r.vals k = none ∨ k ∈ r.invalid) :
+    (hr : lk rules k = some ⟨none, e⟩) (hi : lk r.vals k = none ∨ k ∈ r.invalid) :
     let x := evalE (fun r f => let y := getN n rules [k] r f; (y.1, y.2.getD none)) e
       { r with invalid := r.invalid.erase k }
     getN (n + 1) rules [] r k = ({ x.1 with vals := setv x.1.vals k x.2 }, some x.2) := by
